@@ -249,6 +249,8 @@ FUNCS = [
     ("rig/place_and_route/place/utils.py", "overallocated", ["dict"], "bool"),
     ("rig/place_and_route/place/utils.py", "resources_after_reservation",
      ["dict", "rec:resource,reservation.start,reservation.stop"], "exc:dict"),
+    ("rig/type_casts.py", "NumpyFloatToFixConverter.__init__",
+     ["obj:max_value,min_value,n_frac;skip:bytes_per_element,dtype", "bool", "int", "int"], "exc:none"),
     ("rig/type_casts.py", "float_to_fp", ["bool", "int", "int", "->bitsk", "float"], "exc:int"),
     ("rig/type_casts.py", "fp_to_float", ["int", "->kbits", "int"], "exc:float"),
     ("rig/machine_control/regions.py", "RegionCoreTree.__init__",
@@ -1285,6 +1287,10 @@ class Tr(object):
         if isinstance(n, ast.Compare) and len(n.ops) == 1 and isinstance(n.ops[0], (ast.In, ast.NotIn)):
             # `x in Enum` / `x not in Enum` for an IntEnum class: value membership (Python >= 3.12)
             vals = self.enum_values(n.comparators[0])
+            c = n.comparators[0]
+            if vals is None and isinstance(c, (ast.List, ast.Tuple)) and c.elts and all(
+                    self.tyof(x) == "Int" for x in c.elts) and self.tyof(n.left) == "Int":
+                vals = [self.e(x) for x in c.elts]          # `x in [a, b, c]` over ints
             if vals is None:
                 raise NotImplementedError("`in` " + ast.dump(n.comparators[0])[:60])
             m = "(([%s] : List Int).contains %s = true)" % (", ".join(str(v) for v in vals), self.e(n.left))
